@@ -212,7 +212,13 @@ impl<'a> Parser<'a> {
 
     /// Peek at the next n characters.
     fn peek_str(&self, n: usize) -> &str {
-        let end = (self.pos + n).min(self.input.len());
+        let mut end = (self.pos + n).min(self.input.len());
+        // `n` counts bytes; never split a multi-byte character (slicing there
+        // panics). Callers compare against ASCII tokens, so a shorter slice that
+        // ends before the non-ASCII character cannot change any comparison.
+        while !self.input.is_char_boundary(end) {
+            end -= 1;
+        }
         &self.input[self.pos..end]
     }
 
